@@ -40,6 +40,20 @@ def encode (m : Msg) : List Nat :=
   leBytes 2 m.magic ++ leBytes 4 m.seq ++ leBytes 4 m.typ ++ leBytes 8 m.offset ++ leBytes 8 m.size ++
   leBytes 4 m.data.length ++ m.data
 
+/-- the header of a frame: field names of `rpc.Message` and their widths in bytes, in the order
+    `Wire.Write` sends them (little endian); the payload follows its length -/
+def layout : List (String × Nat) :=
+  [("MagicVersion", 2), ("Seq", 4), ("Type", 4), ("Offset", 8), ("Size", 8), ("len", 4)]
+
+def fieldVal (m : Msg) : String → Nat
+  | "MagicVersion" => m.magic | "Seq" => m.seq | "Type" => m.typ | "Offset" => m.offset | "Size" => m.size
+  | "len" => m.data.length | _ => 0
+
+/-- `encode` is the layout, field by field, followed by the payload -/
+theorem encode_layout (m : Msg) :
+    encode m = (layout.flatMap fun f => leBytes f.2 (fieldVal m f.1)) ++ m.data := by
+  simp [encode, layout, fieldVal, List.flatMap]
+
 inductive Dec where
   | ok (m : Msg) (rest : List Nat)
   | reject                 -- wrong magic: "Wrong API version received"
